@@ -147,12 +147,26 @@ def unify_chunks_expr(*args):
     ):
         return dict(zip(inds[0], arrays[0].chunks)), arrays, False
 
+    # The lengths every index takes among the inputs.  A dimension of length
+    # one is broadcast when another input has a different length for the same
+    # index; its own chunking (possibly with empty chunks, e.g. ``(1, 0)``)
+    # then says nothing about the unified chunks and counts as ``(1,)``
+    # (as in dask.array.core.unify_chunks).
+    lengths: dict = {}
+    for a, ind in arginds:
+        if ind is not None and not isinstance(a, ArrayBlockwiseDep):
+            for n, j in enumerate(ind):
+                lengths.setdefault(j, set()).add(a.shape[n])
+
     nameinds = []
     blockdim_dict = dict()
     for a, ind in arginds:
         if ind is not None and not isinstance(a, ArrayBlockwiseDep):
             nameinds.append((a.name, ind))
-            blockdim_dict[a.name] = a.chunks
+            blockdim_dict[a.name] = tuple(
+                (1,) if a.shape[n] == 1 and lengths[j] != {1} else c
+                for n, (c, j) in enumerate(zip(a.chunks, ind))
+            )
         else:
             nameinds.append((a, ind))
 
@@ -164,10 +178,15 @@ def unify_chunks_expr(*args):
         if i is None or isinstance(a, ArrayBlockwiseDep):
             pass
         else:
+            # A dimension of length one is broadcast against the other inputs
+            # and stays a single chunk, unless the unified dimension itself
+            # has length one (e.g. chunks (1, 0)): then it is an ordinary
+            # dimension and gets the common chunks like every other input, so
+            # that the unified chunks are the same before and after lowering.
             chunks = tuple(
                 (
                     chunkss[j]
-                    if a.shape[n] > 1
+                    if a.shape[n] > 1 or sum(chunkss[j]) == a.shape[n]
                     else (a.shape[n],) if not np.isnan(sum(chunkss[j])) else None
                 )
                 for n, j in enumerate(i)
